@@ -54,6 +54,14 @@ def scenarios(ctx, thorough):
         scs.append(S.mk(sid, "close-right-after-" + w, "reconnect",
                         [P(90), {"a": "PushClose", "what": w}, {"a": "Sleep", "n": 250}, P(91), {"a": "PushClose", "what": w}, {"a": "Sleep", "n": 250}, P(92),
                          {"a": "Settle"}]))
+    # behaviours of Client.tla in which the server closes the connection (SrvClose / LoopEof / LoopReconnect) between calls,
+    # rotations and answers, at moments when nothing is pending
+    hists = [h for h in S.tlc_schedules(ctx, "ClientGenClose.cfg", 400 if thorough else 80) if any(x.get("a") == "Close" for x in h)]
+    for h in hists[: (150 if thorough else 16)]:
+        sid += 1
+        # callers are held only where they wait for their next attempt (gate call.woke, outside every lock): a caller parked
+        # inside the send section would keep the loop from acknowledging, hence from seeing the end of the stream
+        scs.append(S.mk(sid, "tlc-close", "reconnect", S.project(h, rng2, S.ALL_KINDS), gates=["call.woke"]))
     # orderly close between messages, then a probe: reconnect with the same key
     for w in [None] + (ALPHABET if thorough else ALPHABET[:8]):
         sid += 1
@@ -67,6 +75,8 @@ def run(ctx):
     mc = model_check(ctx, False)
     mj = C.run_tlc(ctx, "Client", "ClientJunk.cfg", workers=C.NCPU, timeout=1800, tag="ClientJunk.cfg")
     C.run_tlc(ctx, "Client", "ClientDevAbortContainerLive.cfg", workers=4, expect_violation=True, timeout=600, tag="sensitivity:AbortContainerOnItemError")
+    C.run_tlc(ctx, "Client", "ClientClose.cfg", workers=C.NCPU, timeout=1800, tag="ClientClose.cfg")
+    C.run_tlc(ctx, "Client", "ClientDevDieOnEof.cfg", workers=4, expect_violation=True, timeout=300, tag="sensitivity:DieOnEof")
     scs = scenarios(ctx, thorough)
     st = S.judge(ctx, scs, S.K_LIVE | S.K_CONN | S.K_RESULT, "robust", batch=4)
     C.write_evidence(ctx, "model_checking", {
